@@ -33,10 +33,10 @@ def clean():
 def place_demo(k):
     d = os.path.join(wt, "OUT", k)
     first = open(os.path.join(d, "demo.rs")).readline()
-    m = re.match(r"//\s*(\S+\.rs)\s*;\s*(cargo .*?)\s*(?:;.*)?$", first.strip())
+    m = re.match(r"//\s*(\S+\.rs)\s*;\s*(cargo [^(;]*)", first.strip())
     if not m:
         return None, None, first
-    rel, cmd = m.group(1), m.group(2)
+    rel, cmd = m.group(1), m.group(2).strip()
     dst = os.path.join(wt, rel)
     os.makedirs(os.path.dirname(dst), exist_ok=True)
     shutil.copy(os.path.join(d, "demo.rs"), dst)
